@@ -427,6 +427,8 @@ class Odd:
             return 'var ' + self.name() + ';'
         if k < 0.8 or not glob:
             self.feat.add('val')
+            if r.random() < 0.6:
+                return 'val ' + self.name() + ' = ' + r.choice([self.number(), '3', '70000', '-1', '(1 + 2)', "'a'", 'true']) + ';'
             return 'val ' + self.name() + ' = ' + self.expr(2) + ';'
         self.feat.add('array')
         ln = r.choice(['0', '1', '10', '-1', '2147483647', '4294967295', '200000', '199990', 'v', 'g', 'w + 1', self.expr(1), '-' + self.number()])
@@ -591,6 +593,53 @@ def nested(kind, n):
     else:
         raise ValueError(kind)
     return s.encode()
+
+
+# ------------------------------------------------------------------ misuse matrix
+MISUSE_KINDS = ['gv', 'gx', 'ga', 'pp', 'ff', 'lv', 'lx', 'fv', 'fa', 'fp', 'fn']   # global val/var/array, proc, func, local val/var, formals val/array/proc/func
+MISUSE_ROLES = [
+    ('value', 'tmp := %s'), ('operand', 'tmp := %s + 1'), ('right-operand', 'tmp := (tmp - 1) - %s'), ('negated', 'tmp := -%s'),
+    ('base-read-const', 'tmp := %s[1]'), ('base-read-var', 'tmp := %s[idx]'), ('base-read-call', 'tmp := %s[ff(idx)]'),
+    ('base-write-const', '%s[1] := 2'), ('base-write-var', '%s[idx] := tmp'), ('base-copy', 'ga[idx] := %s[idx]'),
+    ('assign-const', '%s := 5'), ('assign-expr', '%s := tmp + 1'), ('assign-call', '%s := ff(tmp)'),
+    ('call-stmt', '%s(1)'), ('call-stmt-noargs', '%s()'), ('call-stmt-many', '%s(1, tmp, ga, pp)'), ('call-expr', 'tmp := %s(1)'),
+    ('call-expr-in-actual', 'pp(%s(2))'),
+    ('scalar-actual', 'pp(%s)'), ('array-actual', 'takes(%s)'), ('proc-actual', 'callp(%s)'), ('func-actual', 'tmp := callf(%s)'),
+    ('condition-if', 'if %s then tmp := 1 else tmp := 2'), ('condition-while', 'while %s do tmp := tmp + 1'), ('syscall-arg', '1(%s, 0)'),
+    ('compare', 'tmp := %s = tmp'), ('less', 'tmp := tmp < %s'), ('and', 'tmp := %s and tmp'),
+]
+MISUSE_SHAPES = [
+    # (locals of `user` before the statement, formals of `user`, actuals of the call in main)
+    ('val lv = 4; var lx; var idx; var tmp;', 'val fv, array fa, proc fp, func fn', '1, ga, pp, ff'),
+    ('var tmp; var idx; var pad1; var pad2; val other = 70000; var lx; val lv = 4;', 'func fn, proc fp, array fa, val fv', 'ff, pp, ga, 1'),
+    ('var tmp; val lv = 4; var idx; var lx;', 'val fv, array fa, proc fp, func fn', '1, ga, pp, ff'),
+]
+
+
+def misuse_program(kind, role_stmt, shape, in_func=False):
+    locs, formals, actuals = MISUSE_SHAPES[shape]
+    use = role_stmt % kind
+    body = '{ idx := 1; tmp := 2; lx := 3; %s; tmp := tmp + lx }' % use
+    head = 'val gv = 3;\nvar gx;\narray ga[8];\n'
+    helpers = ('proc pp(val a) is skip\nfunc ff(val a) is return a\nproc takes(array z) is z[0] := 1\n'
+               'proc callp(proc q) is q(1)\nfunc callf(func q) is return q(1)\n')
+    if in_func:
+        user = 'func user(%s) is\n  %s\n  { %s; return tmp }\n' % (formals, locs, body)
+        main = 'proc main() is\n  var r;\n  { r := user(%s); 0(r) }\n' % actuals
+    else:
+        user = 'proc user(%s) is\n  %s\n  %s\n' % (formals, locs, body)
+        main = 'proc main() is\n  var r;\n  { r := 0; user(%s); 0(r) }\n' % actuals
+    return (head + helpers + user + main).encode()
+
+
+def misuse_matrix(shapes=(0, 1, 2)):
+    """every declaration kind in every syntactic role, inside a procedure with locals and formals so that frame offsets matter"""
+    out = []
+    for sh in shapes:
+        for kind in MISUSE_KINDS:
+            for role, st in MISUSE_ROLES:
+                out.append(('%s-as-%s-shape%d' % (kind, role, sh), misuse_program(kind, st, sh, in_func=(sh == 1))))
+    return out
 
 
 NEST_KINDS = ['paren', 'begin', 'if', 'while', 'plus', 'and', 'minus', 'minus-right', 'sub', 'call', 'eq', 'comment', 'unary', 'val-chain']
